@@ -1,7 +1,7 @@
 // Command c06 executes Buffer scenarios (C06, C07, C15) against the real buffer package behind a
 // real HTTP server and client.
 //
-//	cfg [maxreq=N] [memreq=N] [maxresp=N] [memresp=N] [retry=<go expr> rx=<polish>] [hj=0|1] [verbose=1] [up=stream-verbose|rr-verbose]
+//	cfg [maxreq=N] [memreq=N] [maxresp=N] [memresp=N] [retry=<go expr> rx=<polish>] [hj=0|1] [verbose=1] [up=stream-verbose|rr-verbose] [dn=trace|cbreaker]
 //	        -> ok | err expr
 //	req <method> <url> cl|ch <len> <seed> [h=K:V;K:V] [ct=form|multipart] [fr=u0] a=<attempt> a=<attempt> ...
 //	        (fr=u0, with ch: Buffer is handed the request with ContentLength 0 and a non-nil body of unknown length)
@@ -38,8 +38,10 @@ import (
 	"time"
 
 	"github.com/vulcand/oxy/v2/buffer"
+	"github.com/vulcand/oxy/v2/cbreaker"
 	"github.com/vulcand/oxy/v2/roundrobin"
 	"github.com/vulcand/oxy/v2/stream"
+	"github.com/vulcand/oxy/v2/trace"
 	"github.com/vulcand/oxy/v2/zzverif/hx"
 )
 
@@ -598,7 +600,23 @@ func newScenario(cfg []string) (hx.Handler, string) {
 	if hx.KVInt(cfg, "verbose", 0) == 1 {
 		opts = append(opts, buffer.Verbose(true))
 	}
-	b, err := buffer.New(http.HandlerFunc(s.inner), opts...)
+	// dn=: an oxy middleware that wraps the writer in utils.ProxyWriter between Buffer and the protected handler
+	var next http.Handler = http.HandlerFunc(s.inner)
+	switch dn, _ := hx.KV(cfg, "dn"); dn {
+	case "trace":
+		tr, err := trace.New(next, io.Discard)
+		if err != nil {
+			panic(err)
+		}
+		next = tr
+	case "cbreaker":
+		cb, err := cbreaker.New(next, "NetworkErrorRatio() > 1.5")
+		if err != nil {
+			panic(err)
+		}
+		next = cb
+	}
+	b, err := buffer.New(next, opts...)
 	if err != nil {
 		return s, "err expr"
 	}
